@@ -1,5 +1,6 @@
 import RPVerif.Lemmas.Sched
 import RPVerif.Lemmas.SchedRun
+import RPVerif.Lemmas.SchedConserve
 
 /-!
 # C04 — The pilot scheduler neither loses nor starves tasks
@@ -7,65 +8,16 @@ import RPVerif.Lemmas.SchedRun
 namespace RPVerif.C04
 open RPVerif.Sched List
 
-def evUids (evs : List Ev) : List Nat := evs.map (fun e => match e with | .adv u _ => u)
-def uids (ts : List Req) : List Nat := ts.map (·.uid)
-
-@[simp] theorem evUids_append (a b : List Ev) : evUids (a ++ b) = evUids a ++ evUids b := by simp [evUids]
-@[simp] theorem uids_append (a b : List Req) : uids (a ++ b) = uids a ++ uids b := by simp [uids]
-
 /-- **placement of incoming tasks loses and duplicates nothing**: every task handed
     to the placement step ends up exactly once either in the event list (started
     or failed) or in the list of tasks to park in the wait pool -/
 theorem C04_incoming_conserve (c : Cfg) (ts : List Req) :
     ∀ (s : SchedSt) (toWait : List Req) (evs : List Ev) (a : Nat),
       count a (evUids (incomingOne c s ts toWait evs).2.2) + count a (uids (incomingOne c s ts toWait evs).2.1)
-        = count a (evUids evs) + count a (uids toWait) + count a (uids ts) := by
-  induction ts with
-  | nil => intro s toWait evs a; simp [incomingOne, uids]
-  | cons t ts ih =>
-    intro s toWait evs a
-    unfold incomingOne
-    have hcons : count a (uids (t :: ts)) = count a [t.uid] + count a (uids ts) := by
-      simp [uids, count_cons]; omega
-    rw [hcons]
-    -- the three ways a task leaves the placement step
-    have hwait : ∀ s', count a (evUids (incomingOne c s' ts (toWait ++ [t]) evs).2.2)
-        + count a (uids (incomingOne c s' ts (toWait ++ [t]) evs).2.1)
-        = count a (evUids evs) + count a (uids toWait) + (count a [t.uid] + count a (uids ts)) := by
-      intro s'; rw [ih]; simp [uids, count_append]; omega
-    have hev : ∀ s' st, count a (evUids (incomingOne c s' ts toWait (evs ++ [Ev.adv t.uid st])).2.2)
-        + count a (uids (incomingOne c s' ts toWait (evs ++ [Ev.adv t.uid st])).2.1)
-        = count a (evUids evs) + count a (uids toWait) + (count a [t.uid] + count a (uids ts)) := by
-      intro s' st; rw [ih]; simp [evUids, count_append]; omega
-    have htry : ∀ (res : Except Err Bool × SchedSt),
-        count a (evUids (match res with
-          | (.ok true,  s') => incomingOne c s' ts toWait (evs ++ [Ev.adv t.uid "AGENT_EXECUTING_PENDING"])
-          | (.ok false, s') => incomingOne c s' ts (toWait ++ [t]) evs
-          | (.error _,  s') => incomingOne c s' ts toWait (evs ++ [Ev.adv t.uid "FAILED"])).2.2)
-        + count a (uids (match res with
-          | (.ok true,  s') => incomingOne c s' ts toWait (evs ++ [Ev.adv t.uid "AGENT_EXECUTING_PENDING"])
-          | (.ok false, s') => incomingOne c s' ts (toWait ++ [t]) evs
-          | (.error _,  s') => incomingOne c s' ts toWait (evs ++ [Ev.adv t.uid "FAILED"])).2.1)
-        = count a (evUids evs) + count a (uids toWait) + (count a [t.uid] + count a (uids ts)) := by
-      intro res
-      obtain ⟨r, s'⟩ := res
-      cases r with
-      | error e => exact hev s' _
-      | ok b => cases b with
-        | true => exact hev s' _
-        | false => exact hwait s'
-    by_cases henv : envMissing s t = true
-    · rw [if_pos henv]; exact hwait s
-    · rw [if_neg henv]
-      cases happ : t.app with
-      | none => simp only; exact htry _
-      | some slots =>
-        simp only
-        by_cases hne : slots ≠ []
-        · rw [if_pos hne]; exact hev _ _
-        · rw [if_neg hne]; exact htry _
+        = count a (evUids evs) + count a (uids toWait) + count a (uids ts) :=
+  incomingOne_conserve c ts
 
-theorem evUids_map_adv (l : List Req) (st : String) :
+theorem evUids_map_adv' (l : List Req) (st : String) :
     evUids (l.map (fun t => Ev.adv t.uid st)) = l.map (·.uid) := by
   simp [evUids]
 
@@ -101,7 +53,7 @@ theorem C04_drain_conserve (ms : List Msg) (hs : ∀ m ∈ ms, ∃ ts, m = Msg.s
     rw [ih (fun m hm => hs m (mem_cons_of_mem _ hm))]
     simp only [flatMap_cons, map_append, count_append, evUids_append, uids_append]
     have hsplit := split_count ts a
-    rw [evUids_map_adv]
+    rw [evUids_map_adv']
     simp only [uids] at hsplit ⊢
     omega
 
@@ -150,5 +102,70 @@ theorem C04_history_counter (c : Cfg) (nodes0 : List NodeSt) (its : List Iter) (
     (runLoop c { nodes := nodes0 } true its []).1.activeCnt = ((runLoop c { nodes := nodes0 } true its []).1.held.length : Int) := by
   have hinit : SInv nodes0 ({ nodes := nodes0 } : SchedSt) := ⟨hinv_init nodes0 hw hnn, rfl⟩
   exact (runLoop_inv c nodes0 its _ true [] hinit hok).2
+
+
+/-! ## conservation over whole histories -/
+
+/-- **every task is accounted for, exactly once, at every moment**: for every configuration, every
+    history of loop iterations (arrivals in any order and batching, priorities, named environments,
+    cancel messages and cancel marks wherever they fall, completions in any order) and every uid `u`
+    that is handed to the scheduler at most once in that history, the number of times `u` was reported
+    (started, failed or canceled) plus the number of times it sits in the wait pool equals the number
+    of times it was handed in.  Nothing is assumed about the placement routine: `lazy_bisect` is
+    proved to classify every element of a pool exactly once whatever its check answers
+    (`Lemmas/BisectAll.lean`), and to come to its end. -/
+theorem C04_history_conserve (c : Cfg) (s0 : SchedSt) (h0 : s0.waitpool = []) (res : Bool) (its : List Iter) (u : Nat)
+    (hu : handed its u ≤ 1) :
+    count u (evUids (runLoop c s0 res its []).2.2.flatten) + waiting (runLoop c s0 res its []).1.waitpool u
+      = handed its u := by
+  have hk : KeysOK s0.waitpool := by rw [h0]; exact nodup_nil
+  have := (runLoop_conserve c u its s0 res [] hk (by rw [h0]; simpa using hu)).2
+  rw [h0] at this
+  simpa using this
+
+/-- a task is reported as started, failed or canceled at most once -/
+theorem C04_reported_at_most_once (c : Cfg) (s0 : SchedSt) (h0 : s0.waitpool = []) (res : Bool) (its : List Iter) (u : Nat)
+    (hu : handed its u ≤ 1) : count u (evUids (runLoop c s0 res its []).2.2.flatten) ≤ 1 := by
+  have := C04_history_conserve c s0 h0 res its u hu
+  omega
+
+/-- a task that was handed in is either reported (once) or waiting (once), never both, never neither -/
+theorem C04_exactly_one_place (c : Cfg) (s0 : SchedSt) (h0 : s0.waitpool = []) (res : Bool) (its : List Iter) (u : Nat)
+    (hu : handed its u = 1) :
+    (count u (evUids (runLoop c s0 res its []).2.2.flatten) = 1 ∧ waiting (runLoop c s0 res its []).1.waitpool u = 0)
+    ∨ (count u (evUids (runLoop c s0 res its []).2.2.flatten) = 0 ∧ waiting (runLoop c s0 res its []).1.waitpool u = 1) := by
+  have := C04_history_conserve c s0 h0 res its u (by omega)
+  omega
+
+/-- nothing is invented: a uid that was never handed in is never reported and never waits -/
+theorem C04_nothing_invented (c : Cfg) (s0 : SchedSt) (h0 : s0.waitpool = []) (res : Bool) (its : List Iter) (u : Nat)
+    (hu : handed its u = 0) :
+    count u (evUids (runLoop c s0 res its []).2.2.flatten) = 0 ∧ waiting (runLoop c s0 res its []).1.waitpool u = 0 := by
+  have := C04_history_conserve c s0 h0 res its u (by omega)
+  omega
+
+/-- `lazy_bisect` (as the scheduler calls it) returns every element of the pool in exactly one of its
+    three lists, for every pool and whatever the placement routine answers -/
+theorem C04_bisect_partition (c : Cfg) (data : List Req) (s : SchedSt) (u : Nat) :
+    count u (uids (pickIdx data (lazyBisect c data s).1.good)) + count u (uids (pickIdx data (lazyBisect c data s).1.bad))
+      + count u (uids (pickIdx data (lazyBisect c data s).1.fail)) = count u (uids data) :=
+  lazyBisect_lists c data s u
+
+/-- the hypotheses are met and both outcomes occur: on one core, task 0 starts, task 1 waits, task 2
+    (ranks 0) is failed, and a cancel message takes task 1 out of the pool -/
+example :
+    let c : Cfg := { cpn := 1, gpn := 0, lfsPn := 0, memPn := 0 }
+    let s0 : SchedSt := { nodes := [{ index := 0, cores := [.free], gpus := [], lfs := 0, mem := 0 }] }
+    let its : List Iter :=
+      [{ incoming := [.sched [{ uid := 0, ranks := 1, cpr := 1, gpr := 0, lfs := 0, mem := 0 },
+                               { uid := 1, ranks := 1, cpr := 1, gpr := 0, lfs := 0, mem := 0 },
+                               { uid := 2, ranks := 0, cpr := 1, gpr := 0, lfs := 0, mem := 0 }]] }]
+    handed its 0 = 1 ∧ handed its 1 = 1 ∧ handed its 2 = 1
+    ∧ waiting (runLoop c s0 true its []).1.waitpool 1 = 1
+    ∧ count 0 (evUids (runLoop c s0 true its []).2.2.flatten) = 1
+    ∧ count 2 (evUids (runLoop c s0 true its []).2.2.flatten) = 1
+    ∧ waiting (runLoop c s0 true (its ++ [{ incoming := [.cancel [1]] }]) []).1.waitpool 1 = 0
+    ∧ count 1 (evUids (runLoop c s0 true (its ++ [{ incoming := [.cancel [1]] }]) []).2.2.flatten) = 1 := by
+  decide +kernel
 
 end RPVerif.C04
